@@ -498,20 +498,27 @@ def check_reads(ctx, M: Messages, kind: str, rule: str, readers: list) -> int:
                 st = fl.state_at(node)
             except AnalysisError:
                 continue
-            x = fl.expand(node, st)
-            path, cur = [], x
-            while True:
-                if isinstance(cur, ast.Subscript):
-                    k = P.try_fold(fi.module, cur.slice, default="<nc>")
-                    path.append(k if k != "<nc>" else "?")
-                    cur = cur.value
-                elif isinstance(cur, ast.Call) and isinstance(cur.func, ast.Attribute) and cur.func.attr == "get" and cur.args:
-                    k = P.try_fold(fi.module, cur.args[0], default="<nc>")
-                    path.append(k if k != "<nc>" else "?")
-                    cur = cur.func.value
-                else:
-                    break
-            path.reverse()
+            def chain(x_):
+                path_, cur_ = [], x_
+                while True:
+                    if isinstance(cur_, ast.Subscript):
+                        k = P.try_fold(fi.module, cur_.slice, default="<nc>")
+                        path_.append(k if k != "<nc>" else "?")
+                        cur_ = cur_.value
+                    elif isinstance(cur_, ast.Call) and isinstance(cur_.func, ast.Attribute) and cur_.func.attr == "get" and cur_.args:
+                        k = P.try_fold(fi.module, cur_.args[0], default="<nc>")
+                        path_.append(k if k != "<nc>" else "?")
+                        cur_ = cur_.func.value
+                    else:
+                        break
+                path_.reverse()
+                return path_, cur_
+            # the decoded message may be a local bound to the decoder's result: read the chain as written first, expanded second
+            x = node
+            path, cur = chain(x)
+            if not (isinstance(cur, ast.Name) and pretty(cur.id) == var):
+                x = fl.expand(node, st)
+                path, cur = chain(x)
             if not (isinstance(cur, ast.Name) and pretty(cur.id) == var) or not path or "?" in path:
                 continue
             key = tuple(path)
@@ -528,6 +535,42 @@ def check_reads(ctx, M: Messages, kind: str, rule: str, readers: list) -> int:
                 ok = True     # (name, value) indexing of a decoded CHOICE is the right shape
             ctx.ob(rule, fi.short(), f"read:{pstr}", ok,
                    f"read of `{pstr}` from a decoded {kind}" + ("" if ok else f": {why}"), f"{fi.module.rel}:{node.lineno}")
+            # a member declared OPTIONAL may be missing from a conforming message of another station: a plain subscript needs a
+            # presence test of that key in front of it (a `.get` step does not)
+            if ok and isinstance(node, ast.Subscript):
+                from .. import sem as _sem
+                S_ = ck.S
+                cur_t, opt_unguarded = M.roots[kind], []
+                steps, c2 = [], x
+                while isinstance(c2, (ast.Subscript, ast.Call)):
+                    steps.append(c2)
+                    c2 = c2.value if isinstance(c2, ast.Subscript) else c2.func.value
+                steps.reverse()                         # outermost container first
+                try:
+                    facts_ = _sem.facts(fl, node, expanded=True) | _sem.facts(fl, node, expanded=False)
+                except AnalysisError:
+                    facts_ = set()
+                for k_, step in zip(path, steps):
+                    if cur_t is None:
+                        break
+                    if cur_t.get("type") in ("SEQUENCE", "SET") and isinstance(k_, str):
+                        mem_ = {m_["name"]: m_ for m_ in S_.members(cur_t)}
+                        m_ = mem_.get(k_)
+                        if m_ is None:
+                            break
+                        if (m_.get("optional") or "default" in m_) and isinstance(step, ast.Subscript):
+                            cont = _sem.cx(step.value)
+                            if not any(a_ == f"in('{k_}',{cont})" or a_ == f"in('{k_}',{cont}.keys())" for a_ in facts_):
+                                opt_unguarded.append(k_)
+                        cur_t = S_.resolve(m_, cur_t.get("_module"))
+                    else:
+                        nxt, _w = ck.descend(cur_t, [k_], None)
+                        cur_t = nxt
+                ctx.ob(rule, fi.short(), f"read:{pstr}:optional-members-guarded", not opt_unguarded,
+                       f"every OPTIONAL member on the way to `{pstr}` is read behind a presence test (or through .get)" if not opt_unguarded else
+                       f"`{pstr}` subscripts the OPTIONAL member(s) {opt_unguarded} without testing their presence: a conforming {kind} of "
+                       "another station that leaves them out raises KeyError in the reception path and is lost (not fed to the LDM, "
+                       "callback not called)", f"{fi.module.rel}:{node.lineno}")
     return n
 
 
